@@ -134,7 +134,8 @@ class WeightedSum(Component):
             return None
 
         if time != self._last_update:
-            if self.status == ComponentStatus.VALIDATED:
+            pulled = self.status == ComponentStatus.VALIDATED
+            if pulled:
                 self._in_data = {
                     name: inp.pull_data(time) for name, inp in self.inputs.items()
                 }
@@ -153,7 +154,9 @@ class WeightedSum(Component):
                     result = result + value * weight
 
             self._out_data = result
-            self._last_update = time
+            # only data pulled for this very time may be served again for it:
+            # during connect the answer is computed from the start-time data
+            self._last_update = time if pulled else None
 
         # hand out a copy: outputs refuse data sharing memory with the last one
         return copy.copy(self._out_data)
